@@ -280,9 +280,12 @@ def main() -> int:
     n_comp_ob = sum(c.get("obligations", 0) for c in comps)
     n_comp_dis = sum(c.get("discharged", 0) for c in comps)
     coverage: Dict[str, Any] = {
-        "obligations": n_ob + n_comp_ob,
+        # obligations to discharge: every generated obligation except those decided as VIOLATED by a
+        # recorded known finding (listed separately; they are not counted as proved)
+        "obligations": n_ob - len(known) + n_comp_ob,
         "discharged": st.get("discharged", 0) + n_comp_dis,
         "known_finding_obligations": len(known),
+        "known_findings": sorted({o["info"].get("finding", "?") for o in known}),
         "violated": len(violated),
         "undecided": len(undecided),
         "checker_cmd": f"./check {prop} --tier {a.tier}",
